@@ -1924,7 +1924,7 @@ func reflectGetWildOne(data any) (any, bool) {
 		}
 		switch rt.Kind() {
 		case reflect.Struct:
-			for i := rd.NumField() - 1; 0 <= i; i-- {
+			for i := 0; i < rd.NumField(); i++ {
 				rv := rd.Field(i)
 				if rv.CanInterface() {
 					return rv.Interface(), true
